@@ -77,3 +77,25 @@ Theorem C02_write_words : forall fuel t addr ws,
             if (addr <=? x) && (x <? addr + N.of_nat (length ws)) then nth_error ws (N.to_nat (x - addr)) else word_at t x.
 Proof. exact write_words_at. Qed.
 Print Assumptions C02_write_words.
+
+(* ---- translator tie (Gen/RegLeafGen.v is regenerated from src/registers/core.c on every check): the predicates by which the
+   block-write checks place an area relative to the request are the model's, for every area and request inside the 32-bit
+   address space - including areas that reach its last address ---- *)
+From Coq Require Import ZArith.
+From Ufw Require Import Base.Cexpr Gen.RegLeafGen Proof.RegLeafT.
+
+Theorem C02_T_area_touched_by_request : forall a e addr n, area_in_space a -> window_in_space addr n ->
+  (eval (envC a e addr n) tabsC c_ra_range_touches =? 0)%Z = (addr <? a_base a + a_size a) && (a_base a <? addr + n).
+Proof. exact C_ra_range_touches_zero. Qed.
+Print Assumptions C02_T_area_touched_by_request.
+
+Theorem C02_T_area_relative_to_request : forall a e addr n, area_in_space a -> window_in_space addr n ->
+  eval (envC a e addr n) tabsC c_ra_range_touches =
+    if a_base a + a_size a <=? addr then (-1)%Z else if addr + n <=? a_base a then 1%Z else 0%Z.
+Proof. exact C_ra_range_touches. Qed.
+Print Assumptions C02_T_area_relative_to_request.
+
+Theorem C02_T_address_in_area : forall a e addr n, area_in_space a -> addr < SPACE ->
+  eval (envC a e addr n) tabsC c_ra_addr_is_part_of = b2z (addr_in_area a addr).
+Proof. exact C_ra_addr_is_part_of. Qed.
+Print Assumptions C02_T_address_in_area.
